@@ -560,6 +560,17 @@ pub fn main(args: &[String]) -> i32 {
         let _ = std::fs::remove_dir_all(&dir);
         std::fs::create_dir_all(&dir).unwrap();
         let prefix = if pi % 3 == 0 { "pre fix" } else if pi % 3 == 1 { "lexer.v2" } else { "P" };
+        if pi % 4 == 0 {
+            // the folder already holds (longer) files of the same names from an earlier generation:
+            // the same modes with one more, long pattern each
+            let mut bigger = modes.clone();
+            for m in bigger.iter_mut() {
+                m.pats.push(crate::parse::RealPat { pattern: "zyxwvutsrqponmlkjihgfedcba0123456789".into(), tt: 77, la: Some((true, "abcdefghij".into())) });
+            }
+            if let Ok(Ok(big)) = std::panic::catch_unwind(|| ScannerBuilder::new().add_scanner_modes(&crate::parse::to_scanner_modes_raw(&bigger)).build_uncached()) {
+                let _ = export(&big, prefix, Path::new(&dir));
+            }
+        }
         let ret = export(&sc, prefix, Path::new(&dir));
         let mut listed: Vec<String> = std::fs::read_dir(&dir).map(|r| r.filter_map(|e| e.ok()).map(|e| e.file_name().to_string_lossy().to_string()).collect()).unwrap_or_default();
         listed.sort();
